@@ -205,8 +205,6 @@ def overrideOk (env : Env) (c o : Nat) (f : String) (k : Nat) : Bool :=
                debug/0 at all, its CLI adds the same behaviour);
     * debug/1  internal.jq:28  `(f | debug | empty), .` — jq 1.7's debug(msg);
     * stderr/0 internal.jq:30  `printerr, .` — value to stderr, input passed through (CLI function in gojq);
-    * split/1  binary.jq:57    `[splits($val | _re_quote_meta)]` — literal split through the (guarded) regex
-               splits; correct iff `_re_quote_meta` quotes every metacharacter: `gen_reQuoteMeta_literal`;
     * split/2  binary.jq:58    `[splits($regex; $flags)]` — gojq's own builtin.jq defines
                `splits($re; $flags): split($re; $flags)[]`, so collecting splits/2 gives split/2 back;
     * tojson/0 json.jq:3       `_to_json(null)` — fq's colorjson encoder (a fork of gojq's) so that decode values
@@ -217,7 +215,7 @@ def overrideOk (env : Env) (c o : Nat) (f : String) (k : Nat) : Bool :=
     * input/0, inputs/0, input_filename/0  init.jq — fq's own input machinery (files are decoded, not parsed as
                JSON): outside "ordinary JSON inputs given as values"; `input_filename` is null with `-n`, as in jq. -/
 def reimplemented : List (String × Nat) :=
-  [("debug", 0), ("debug", 1), ("stderr", 0), ("split", 1), ("split", 2), ("tojson", 0), ("fromjson", 0),
+  [("debug", 0), ("debug", 1), ("stderr", 0), ("split", 2), ("tojson", 0), ("fromjson", 0),
    ("input", 0), ("inputs", 0), ("input_filename", 0)]
 
 end FqModel.JqEnv
